@@ -431,7 +431,7 @@ func (v *Vue) callFunc(ctx *VueContext, fn any, args ...any) (any, error) {
 		} else if converted, ok := numberToString(argVal, argType); ok {
 			// Go's own int->string conversion yields the rune with that code point, not the digits
 			in[i] = converted
-		} else if argVal.Type().ConvertibleTo(argType) {
+		} else if argVal.Type().ConvertibleTo(argType) && fitsInteger(argVal, argType) {
 			in[i] = argVal.Convert(argType)
 		} else {
 			// Try to handle common conversions
@@ -469,6 +469,31 @@ func (v *Vue) callFunc(ctx *VueContext, fn any, args ...any) (any, error) {
 }
 
 // numberToString converts integers to their decimal string form when a string is expected.
+// fitsInteger reports whether an integer value can be converted to the integer type t without
+// wrapping around (300 does not fit an int8, -1 does not fit a uint). Other conversions pass.
+func fitsInteger(val reflect.Value, t reflect.Type) bool {
+	zero := reflect.Zero(t)
+	signedVal := val.Kind() >= reflect.Int && val.Kind() <= reflect.Int64
+	unsignedVal := val.Kind() >= reflect.Uint && val.Kind() <= reflect.Uintptr
+	switch {
+	case t.Kind() >= reflect.Int && t.Kind() <= reflect.Int64:
+		if signedVal {
+			return !zero.OverflowInt(val.Int())
+		}
+		if unsignedVal {
+			return val.Uint() <= 1<<63-1 && !zero.OverflowInt(int64(val.Uint()))
+		}
+	case t.Kind() >= reflect.Uint && t.Kind() <= reflect.Uintptr:
+		if signedVal {
+			return val.Int() >= 0 && !zero.OverflowUint(uint64(val.Int()))
+		}
+		if unsignedVal {
+			return !zero.OverflowUint(val.Uint())
+		}
+	}
+	return true
+}
+
 func numberToString(val reflect.Value, targetType reflect.Type) (reflect.Value, bool) {
 	if targetType.Kind() != reflect.String {
 		return reflect.Value{}, false
@@ -489,11 +514,11 @@ func convertValue(val reflect.Value, targetType reflect.Type) (reflect.Value, bo
 		s := val.String()
 		switch targetType.Kind() {
 		case reflect.Int, reflect.Int8, reflect.Int16, reflect.Int32, reflect.Int64:
-			if i, err := strconv.ParseInt(s, 10, 64); err == nil {
+			if i, err := strconv.ParseInt(s, 10, 64); err == nil && fitsInteger(reflect.ValueOf(i), targetType) {
 				return reflect.ValueOf(i).Convert(targetType), true
 			}
 		case reflect.Uint, reflect.Uint8, reflect.Uint16, reflect.Uint32, reflect.Uint64:
-			if u, err := strconv.ParseUint(s, 10, 64); err == nil {
+			if u, err := strconv.ParseUint(s, 10, 64); err == nil && fitsInteger(reflect.ValueOf(u), targetType) {
 				return reflect.ValueOf(u).Convert(targetType), true
 			}
 		case reflect.Float32, reflect.Float64:
